@@ -81,3 +81,23 @@ PROPS["C04"] = dict(
     bounds={"quick": "12 bit positions, strings <= 5 letters, mutations of every 8th printed text", "thorough": "16 bit positions, strings <= 6 letters, mutations of every printed text"},
     assumptions=COMMON_ASSUMPTIONS + ["bit indexes are below 640", "strings outside the documented grammar may be accepted or rejected; only safety and print/parse stability are demanded of them"],
 )
+
+
+PROPS["C02"] = dict(
+    level_text="Exhaustive within bounds: breadth-first exploration of every history of modifying calls (alphabet computed from "
+               "the state, arguments from small domains including invalid ones) up to the depth bound from every root x "
+               "configuration, each transition executed on the real library from a freshly replayed state; every reached state is "
+               "checked by the independent well-formedness checker, hwloc_topology_check(), the unchanged-on-documented-failure "
+               "comparison of canonical dumps and the gp_index/userdata tags.",
+    technique="explicit-state BFS over operation histories of the real library (state = replayed history, dedup on canonical dump)",
+    design_ref="DESIGN.md 5 (C02), 2.1-2.3",
+    stages=[simple("hist", "c02_history", parts=100, deadline={"quick": 100, "thorough": 3000})],
+    explanation="Roots: U_small (14 synthetic + fixtures with <= 8 PUs) x 4 configurations (default, keep-all + INCLUDE_DISALLOWED, "
+                "KEEP_STRUCTURE everything, keep-all). Alphabet per state: restrict (subsets / object sets x 7 flag words + invalid), "
+                "insert_misc at every object, Group insertion (object sets, sibling unions, conflicting sets, nodeset-only, empty, "
+                "superset; dont_merge x kinds), alloc+free, allow (all flag words, custom sets), distances add (6 object selections x 4 "
+                "matrices x grouping flags) / remove, memattr register/set_value, cpukinds register, infos/subtype edits, refresh.",
+    bounds={"quick": "depth 2 on default and keep-all+disallowed configurations (depth 1 on the other two for large roots), frontier cap 600-2500 states per (root,cfg); capped partitions are reported with exhaustive=false",
+            "thorough": "depth 2 everywhere, depth 3 on the small synthetic roots, frontier cap 60000"},
+    assumptions=COMMON_ASSUMPTIONS + ["states beyond the frontier cap are checked but not expanded"],
+)
